@@ -74,7 +74,10 @@ do_pair(int c, const struct rc_day *a, const struct rc_day *b, struct dt_dt_s va
 	ok = 0;
 	if (n > 0) {
 		g = strtol(got, &ep, 10);
-		ok = ep != got && !strcmp(ep, "b") && (g == e1 || g == e2) && (got[0] != '-' || g < 0);
+		ok = ep != got && !strcmp(ep, "b") && (g == e1 || g == e2) && (got[0] != '-' || g < 0 ||
+						/* ddiff writes a truncated negative difference as -0 in every unit (`ddiff 2012-03-11 2012-03-10 -f %w`
+						 * is -0): zero business days of a pair whose second value is the earlier one may carry the sign */
+						(g == 0 && b->rd < a->rd));
 		if (ok && g != e1) {
 			++*c_alt;
 		}
